@@ -1797,7 +1797,20 @@ func (cx *c19Ctx) floatExplicit(f *c19Float, e *c19E, text string, fi int, kind 
 	cx.sum.Cases[fmt.Sprint(id)] = human
 	cx.sum.Sample(human)
 	if f.Var == "" {
-		cx.add(fmt.Sprintf("(%d, CFloatExpl %s (Some %s) %s %s %s)", id, c19FlagsCoq(f.flags[fi]), c19CoqToks(f.gens.off, text), e.coq(), on, off), 6+e.nodes()/2)
+		// the source text travels too (ASCII texts; no text operators in example/minimal.go): the tokenizer model reads it
+		ops, to, kw, cm, cf := f.gens.off.GetParser().VerifTokenizerConfig()
+		ascii := len(to) == 0
+		for _, ch := range text {
+			ascii = ascii && ch < 128
+		}
+		if ascii {
+			cx.sum.Count("float_explicit_text", "text and tokenizer configuration sent to the tokenizer model")
+			cx.add(fmt.Sprintf("(%d, CFloatText %s %s %s %s %s %s %s %s %s %s)", id, c19FlagsCoq(f.flags[fi]), CoqStr(text), c03CoqStrs(ops), c03CoqStrs(kw),
+				CoqBool(cm), CoqBool(cf), c19CoqToks(f.gens.off, text), e.coq(), on, off), 7+e.nodes()/2)
+		} else {
+			cx.sum.Count("float_explicit_text", "tokens only")
+			cx.add(fmt.Sprintf("(%d, CFloatExpl %s (Some %s) %s %s %s)", id, c19FlagsCoq(f.flags[fi]), c19CoqToks(f.gens.off, text), e.coq(), on, off), 6+e.nodes()/2)
+		}
 	} else {
 		cx.add(fmt.Sprintf("(%d, CFloatVarExpl %s %s (Some %s) %s %s %s)", id, f.coqVar(), c19FlagsCoq(f.flags[fi]), c19CoqToks(f.gens.off, text), e.coq(), on, off), 6+e.nodes()/2)
 	}
@@ -2044,6 +2057,34 @@ func cmdC19(seed int64, tier, outDir string) {
 		fi := r.Pick(len(cx.f.flags))
 		full := r.Chance(0.3)
 		jobs = append(jobs, func() { cx.floatExplicit(cx.f, e, ft.render(e, full).text, fi, kind) })
+	}
+	// ---- comfort mode (example/minimal.go: SetComfort(true)): programs rich in products, written with multiplication
+	// signs LEFT OUT where the scanner puts them back (2a, 2 a, a b, 2(a), a (b), (a+1)(1-a)) and lexemes tight or
+	// spaced; the source tree has the explicit products: the text must evaluate exactly like them
+	fc := &c19Gen{r: r, leaves: []*c19E{c19Name("a"), c19Name("b"), c19Num("3"), c19Num("0.25"), c19Num("2")}, bin: []string{"*", "*", "*", "+", "-", "<"}, un: []string{"-"}}
+	comfortParser := cx.f.gens.off.GetParser()
+	for i := 0; i < nRand/5; i++ {
+		var e *c19E
+		if i%3 == 2 {
+			e = fc.stmt(1+r.Pick(2), nil)
+		} else {
+			e = fc.expr(2+r.Pick(3), nil)
+		}
+		fi := r.Pick(len(cx.f.flags))
+		explicit := ft.render(e, r.Chance(0.3)).text
+		var ctoks []c03Tok
+		for _, k := range comfortParser.VerifParseTokens(explicit) {
+			ctoks = append(ctoks, c03Tok{Typ: k.Typ, Img: k.Image})
+		}
+		text, omitted, tight, adm := r.c03ComfortText(&c03Table{Alias: map[string]string{}}, ctoks, []float64{1, 0.6}[r.Pick(2)])
+		if !adm || omitted == 0 {
+			sum.Count("float_comfort_text", "no sign could be left out")
+			continue
+		}
+		sum.Count("float_comfort_text", "signs left out")
+		sum.Count("float_comfort_signs_left_out", bucket(omitted))
+		sum.Count("float_comfort_tight_products", bucket(tight))
+		jobs = append(jobs, func() { cx.floatExplicit(cx.f, e, text, fi, "comfort: multiplication signs left out") })
 	}
 	// explicit cases keep their order (ids are assigned under the lock, in job order)
 	for _, j := range jobs {
